@@ -15,6 +15,11 @@ enum Act {
     Wi { id: u32, ret: u64, body: Vec<Act> },
     /// closure-safe toggle: flip the flag and restore it
     Pair,
+    /// two directly nested without_interrupts calls written out in one function (the closures are
+    /// inlined, so the optimiser sees both flag reads in one body)
+    Nest2 { id: u32 },
+    /// read, flip, read, restore, read — all in one function
+    Probe3,
     Enable,
     Disable,
     AreEnabled,
@@ -30,6 +35,8 @@ fn parse(v: &Value) -> Act {
     match v["op"].as_str().unwrap_or("") {
         "wi" => Act::Wi { id: v["id"].as_u64().unwrap_or(0) as u32, ret: v["ret"].as_u64().unwrap_or(0), body: v["body"].as_array().map(|a| a.iter().map(parse).collect()).unwrap_or_default() },
         "pair" => Act::Pair,
+        "nest2" => Act::Nest2 { id: v["id"].as_u64().unwrap_or(0) as u32 },
+        "probe3" => Act::Probe3,
         "enable" => Act::Enable,
         "disable" => Act::Disable,
         "are_enabled" => Act::AreEnabled,
@@ -44,7 +51,7 @@ fn gen_body(rng: &mut Rng, depth: u32, next_id: &mut u32, top: bool) -> Vec<Valu
     let n = if top { rng.range(1, 6) } else { rng.below(4) };
     let mut out = vec![];
     for _ in 0..n {
-        let k = if top { rng.weighted(&[6, 0, 2, 2, 2, 3, 3, 2, 1]) } else { rng.weighted(&[4, 3, 0, 0, 2, 0, 3, 2, 2]) };
+        let k = if top { rng.weighted(&[6, 0, 2, 2, 2, 3, 3, 2, 1, 2, 2]) } else { rng.weighted(&[4, 3, 0, 0, 2, 0, 3, 2, 2, 2, 2]) };
         out.push(match k {
             0 if depth < 6 => {
                 let id = *next_id;
@@ -59,6 +66,12 @@ fn gen_body(rng: &mut Rng, depth: u32, next_id: &mut u32, top: bool) -> Vec<Valu
             5 => json!({"op": "enable_and_hlt"}),
             6 => json!({"op": "arrive", "vector": rng.range(32, 255)}),
             7 => json!({"op": "arrive_later", "vector": rng.range(32, 255), "after": rng.range(1, 24)}),
+            9 => {
+                let id = *next_id;
+                *next_id += 2;
+                json!({"op": "nest2", "id": id})
+            }
+            10 => json!({"op": "probe3"}),
             _ => json!({"op": "work", "n": rng.range(1, 5)}),
         });
     }
@@ -75,7 +88,17 @@ pub fn gen(seed: u64) -> Replay {
         steps.push(json!({"op": "arrive", "vector": rng.range(32, 255)}));
         steps.push(json!({"op": "enable_and_hlt"}));
     }
-    let config = json!({"init_if": rng.chance(50), "monitor": !rng.chance(15)});
+    // other system flags the environment may have left set (CPUID probing leaves ID, a `stac`
+    // region AC, old task switches NT, IOPL by the loader): they must not confuse the flag logic
+    let mut sys = 0u64;
+    if rng.chance(40) {
+        for b in [21u32, 18, 14, 12, 13] {
+            if rng.chance(40) {
+                sys |= 1 << b;
+            }
+        }
+    }
+    let config = json!({"init_if": rng.chance(50), "monitor": !rng.chance(15), "rflags_sys": sys});
     Replay { property: "C17".into(), simulator: "cpusim".into(), seed, config, steps, violation: None, minimised_from_steps: None }
 }
 
@@ -138,6 +161,38 @@ fn exec(acts: &[Act], obs: &mut Obs) {
                     interrupts::disable();
                 }
             }
+            Act::Nest2 { id } => {
+                let (a, b) = (*id, *id + 1);
+                let r = interrupts::without_interrupts(|| {
+                    mark(a * 2);
+                    let inner = interrupts::without_interrupts(|| {
+                        mark(b * 2);
+                        mark(b * 2 + 1);
+                        7u64
+                    });
+                    mark(a * 2 + 1);
+                    inner + 1
+                });
+                if r != 8 {
+                    obs.rets_ok = false;
+                }
+            }
+            Act::Probe3 => {
+                let a = interrupts::are_enabled();
+                if a {
+                    interrupts::disable();
+                } else {
+                    interrupts::enable();
+                }
+                let b = interrupts::are_enabled();
+                if a {
+                    interrupts::enable();
+                } else {
+                    interrupts::disable();
+                }
+                let c = interrupts::are_enabled();
+                obs.are_enabled.extend_from_slice(&[a, b, c]);
+            }
             Act::Enable => interrupts::enable(),
             Act::Disable => interrupts::disable(),
             Act::AreEnabled => obs.are_enabled.push(interrupts::are_enabled()),
@@ -197,6 +252,15 @@ impl Model {
                         self.seq.push(Ev::Cli);
                     }
                 }
+                Act::Nest2 { id } => {
+                    let inner = Act::Wi { id: id + 1, ret: 0, body: vec![] };
+                    let outer = Act::Wi { id: *id, ret: 0, body: vec![inner] };
+                    self.run(std::slice::from_ref(&outer));
+                }
+                Act::Probe3 => {
+                    let f = self.iflag;
+                    self.are_enabled.extend_from_slice(&[f, !f, f]);
+                }
                 Act::Enable => {
                     self.seq.push(Ev::Sti);
                     self.iflag = true;
@@ -221,7 +285,7 @@ impl Model {
 }
 
 fn has_wi(acts: &[Act]) -> bool {
-    acts.iter().any(|a| matches!(a, Act::Wi { .. } | Act::Pair | Act::AreEnabled))
+    acts.iter().any(|a| matches!(a, Act::Wi { .. } | Act::Pair | Act::AreEnabled | Act::Nest2 { .. } | Act::Probe3))
 }
 
 pub fn run(rp: &Replay, st: &mut Stats) -> Option<Violation> {
@@ -233,6 +297,7 @@ pub fn run(rp: &Replay, st: &mut Stats) -> Option<Violation> {
     let w = world();
     w.cpu = Cpu::default();
     w.cpu.iflag = init_if;
+    w.cpu.rflags_sys = rp.config["rflags_sys"].as_u64().unwrap_or(0);
     w.cpu.trace.reserve(4096);
     w.mon_budget = 150_000;
     st.steps += acts.len() as u64;
@@ -346,6 +411,8 @@ pub fn run(rp: &Replay, st: &mut Stats) -> Option<Violation> {
         let kind = match a {
             Act::Wi { .. } => 0,
             Act::Pair => 1,
+            Act::Nest2 { .. } => 9,
+            Act::Probe3 => 10,
             Act::Enable => 2,
             Act::Disable => 3,
             Act::AreEnabled => 4,
